@@ -886,3 +886,63 @@ def class_state_closure(cx: Cx, ob: Ob, cls_q: str, allowed=("__init__",)) -> No
         if m.name in allowed:
             continue
         ob.violate(m.qualname, where(m, ev.line), f"{m.name} writes instance/class state self.{attr} ({how}): answers depend on earlier queries", detail=f"state-write:{attr}")
+
+
+CSV_DIALECT_KW = ("delimiter", "quoting", "quotechar", "escapechar", "doublequote", "skipinitialspace", "dialect", "strict")
+
+
+def csv_dialect(call) -> dict:
+    """Dialect-relevant keyword arguments of a csv.reader / csv.writer call (lineterminator is write-only)."""
+    kw = dict(call[3])
+    out = {k: v for k, v in kw.items() if k in CSV_DIALECT_KW}
+    if len(call[2]) > 1:
+        out["dialect"] = call[2][1]
+    return out
+
+
+def _csv_norm(d: dict) -> dict:
+    """Drop keyword arguments that restate the csv module's defaults (QUOTE_ALL reads like QUOTE_MINIMAL)."""
+    from .terms import is_const, show
+
+    out = {}
+    for k, v in d.items():
+        if k == "quoting" and show(v).rsplit(".", 1)[-1] in ("QUOTE_MINIMAL", "QUOTE_ALL"):
+            continue
+        if k == "quotechar" and is_const(v, '"'):
+            continue
+        if k == "doublequote" and is_const(v, True):
+            continue
+        if k in ("skipinitialspace", "strict") and is_const(v, False):
+            continue
+        if k == "escapechar" and is_const(v, None):
+            continue
+        if k == "dialect" and is_const(v, "excel"):
+            continue
+        out[k] = v
+    return out
+
+
+def csv_agreement(ob: Ob, wfn, rfn, wcall, rcall, what: str) -> None:
+    from .terms import is_const, show
+
+    wd, rd = _csv_norm(csv_dialect(wcall)), _csv_norm(csv_dialect(rcall))
+    for k in sorted(set(wd) | set(rd)):
+        if k == "delimiter":
+            continue  # judged separately
+        if wd.get(k) != rd.get(k):
+            ob.violate(
+                wfn.qualname,
+                wfn.where,
+                f"{what}: the csv writer is configured with {k}={show(wd[k])[:30] if k in wd else 'default'} but the reader with {k}={show(rd[k])[:30] if k in rd else 'default'}: cells containing the delimiter, quotes or the escape character do not read back as written",
+                detail=f"dialect:{k}",
+            )
+    q = wd.get("quoting")
+    if q is not None and "QUOTE_NONE" in show(q) and "escapechar" not in wd:
+        ob.violate(
+            wfn.qualname,
+            wfn.where,
+            f"{what}: csv.writer(quoting=QUOTE_NONE) without an escapechar raises csv.Error ('need to escape') on the first cell that contains the delimiter or a quote character - after the output file has been opened for writing",
+            detail="writer-may-raise",
+        )
+    if q is not None and "QUOTE_NONE" in show(q) and wd.get("quoting") == rd.get("quoting") and "escapechar" not in wd:
+        pass
